@@ -17,10 +17,9 @@ package sm2
 
 //@ func (*sm2Curve).pointFromAffine property C13
 //@   requires curve != nil && curve.curve != nil && curve.newPoint != nil && x != nil && y != nil
-//@   ensures err == nil ==> p != nil
+//@   ensures err == nil ==> p != nil && fresh(p)
 //@   fnspec newPoint: std:pointCreator
-//@   heapnonnil
-//@   modifies everything
+//@   modifies nothing
 
 //@ func parseCiphertextASN1 property C13,C07
 //@   requires c != nil && c.curve != nil && c.newPoint != nil
@@ -125,3 +124,36 @@ package sm2
 //@   ensures err == nil ==> result0 != nil
 //@   fnspec newPoint: std:pointCreator
 //@   modifies nothing
+
+// ---- signatures (C06). Over the assumed arithmetic of internal/bigmod and internal/sm2ec (ghost values):
+// verification returns true only if r and s are in [1, n-1], t = r+s mod n is not zero, the computed
+// point is not the point at infinity, and r == (e + x1) mod n with (x1, y1) = [s]G + [t]P - the
+// GB/T 32918.2 verification equation.
+//@ func parseSignature property C06,C13
+//@   ensures err == nil ==> len(r) <= len(sig) && len(s) <= len(sig)
+//@   modifies nothing
+
+//@ func hashToNat trusted
+//@   requires c != nil && e != nil
+//@   ensures ghost(natv, e) == HASHNAT(arr(hash), offof(hash), len(hash), MODV(objof(c.N)))
+//@   modifies *e, ghost(natv, e)
+
+//@ func verifySM2EC property C06,C13
+//@   requires c != nil && c.curve != nil && c.newPoint != nil && c.N != nil && pub != nil && pub.X != nil && pub.Y != nil && MODV(objof(c.N)) > 1
+//@   fnspec newPoint: std:pointCreator
+//@   let N := MODV(objof(c.N))
+//@   bind after call pointFromAffine#1: P := ghost(ptv, result0)
+//@   bind after call parseSignature#1: R := BEV(arr(result0), offof(result0), len(result0))
+//@   bind after call parseSignature#1: S := BEV(arr(result1), offof(result1), len(result1))
+//@   ensures result ==> 1 <= R && R < N && 1 <= S && S < N && (R + S) % N != 0
+//@   ensures result ==> PADD(SBMUL(S), SMUL(P, (R + S) % N)) != PINF()
+//@   ensures result ==> R == (PX(PADD(SBMUL(S), SMUL(P, (R + S) % N))) % N + HASHNAT(arr(hash), offof(hash), len(hash), N)) % N
+//@   modifies nothing
+
+// the cached inverse: whatever the history of earlier calls (sync.Once already spent or not), an
+// error or a non-nil value comes back
+//@ func (*PrivateKey).inverseOfPrivateKeyPlus1 property C06
+//@   requires priv != nil && priv.D != nil && c != nil && c.N != nil
+//@   ensures err == nil ==> result0 != nil
+//@   heapnonnil
+//@   modifies everything
